@@ -40,7 +40,7 @@ theorem translated_hermitian_conjugated_term_eq (k : Scal R) (x : TranslatedPaul
   rw [C03.ofTerm_coeff, C03.term_copy_some k x t _ w]
   rfl
 
-example : TranslatedOps.hermitian_conjugated_term (R := Int) ⟨0, 0, 0, 0, fun c => -c⟩ ⟨fun _ _ => false, fun _ _ => false, fun _ _ => none, id⟩
+example : TranslatedOps.hermitian_conjugated_term (R := Int) ⟨0, 0, 0, 0, fun c => -c⟩ ⟨fun _ _ => false, fun _ _ => false, fun _ _ => none, fun a b => a == b, id⟩
     ⟨fun _ _ => true, id⟩ ⟨[(2, some P.X), (0, some P.Y)], 5⟩ = .ok ⟨[(2, some P.X), (0, some P.Y)], -5⟩ := rfl
 
 /-- the loop `for term in operator.terms: conjugate_operator += term.copy(term.coefficient.conjugate())` -/
@@ -79,7 +79,7 @@ theorem translated_hermitian_conjugated_sum_eq (k : Scal R) (x : TranslatedPauli
   rfl
 
 example : TranslatedOps.hermitian_conjugated_sum (R := Int) ⟨0, 0, 0, 0, fun c => -c⟩
-    ⟨fun a b => a == b, fun a b => a == b, fun _ _ => none, id⟩ ⟨fun _ _ => true, id⟩
+    ⟨fun a b => a == b, fun a b => a == b, fun _ _ => none, fun a b => a == b, id⟩ ⟨fun _ _ => true, id⟩
     [⟨[(1, some P.Z)], 2⟩, ⟨[], 3⟩, ⟨[(1, some P.Z)], 5⟩] = .ok [⟨[(1, some P.Z)], -7⟩, ⟨[], -3⟩] := rfl
 
 /-! ### is_hermitian -/
@@ -388,7 +388,7 @@ theorem translated_reverse_eq_bitreversal_conj (k : Scal R) (x : TranslatedPauli
 /-! ### non-vacuity: externals meeting the hypotheses -/
 
 /-- exact comparisons as the externals of the translated classes -/
-def xExact : TranslatedPauli.Ext R := ⟨fun a b => decide (a = b), fun a b => decide (a = b), fun _ _ => none, id⟩
+def xExact : TranslatedPauli.Ext R := ⟨fun a b => decide (a = b), fun a b => decide (a = b), fun _ _ => none, fun a b => decide (a = b), id⟩
 /-- hash equality = equal coefficient and equal operation sets; dict order as iteration order -/
 def yExact : TranslatedOps.Ext9 R :=
   ⟨fun a b => decide (a.coefficient = b.coefficient) && frozenItemsEq a._ops b._ops, id⟩
